@@ -1223,6 +1223,12 @@ def install_builtins(reg: Registry):
                 raise PathEnd()
             d.d.update(a[1].d)
         d.d.update(k)
+        owner = getattr(d, "dict_of", None)
+        if owner is not None:
+            # `obj.__dict__.update(...)`: the instance attributes are replaced through the live view
+            for kk, v in d.d.items():
+                owner.f[kk] = v
+                owner.absent.discard(kk)
         return NONE
 
     @H("dict.copy")
